@@ -112,6 +112,12 @@ func StartKeygen(group curve.Curve, receiver bool, selfID, otherID party.ID, sec
 			Group:            group,
 		}
 
+		// A refresh is a different protocol from a key generation between the
+		// same two parties: it must not share its session tag.
+		if secretShare != nil || public != nil {
+			info.ProtocolID = "doerner/refresh"
+		}
+
 		helper, err := round.NewSession(info, sessionID, nil)
 		if err != nil {
 			return nil, fmt.Errorf("keygen.StartKeygen: %w", err)
